@@ -49,7 +49,7 @@ func firstLine(s string) string {
 func TestRenumberedAfterRenames(t *testing.T) {
 	const test = "RenumberedAfterRenames"
 	hx.Rule(test, "generated modules biased to unnamed values, parsed (the parser numbers them), printed once, then a seeded random subset of parameters, blocks and instruction results renamed through SetName (named to unnamed, unnamed to named, named to another name; counts of parameters, blocks and instructions unchanged) and printed again: llvm-as-14 accepts the second print (it rejects any deviation from its own numbering) and reads the same program up to local names; non-trivial = at least one value went from named to unnamed or back")
-	hx.Check(t, test, hx.N(200, 6000), func(rt *rapid.T) {
+	hx.Check(t, test, hx.N(200, 1500), func(rt *rapid.T) {
 		m, _ := gen.Module(rt, cfg())
 		x := m.Text()
 		seed := rapid.Uint64().Draw(rt, "renameSeed")
